@@ -17,5 +17,6 @@ CONSTANTS
   Defect_NoTruncate = FALSE
   Defect_NoLiveLoad = FALSE
   Defect_ReinstallOnDup = FALSE
+  Defect_InstallKeepsTmp = FALSE
 INVARIANTS ExportBehaviour InstalledIntact FollowerServesPrefix
 CHECK_DEADLOCK FALSE
